@@ -27,6 +27,7 @@ def run_property(prop: str, tier: str, replay: str | None = None,
         model = Model(Repo(root))
         ctx = Ctx(prop, tier, model)
         try:
+            _shared_state_rules(ctx, model, prop)
             mod.run(ctx)
         except ModelViolation as mv:
             ctx.ob(mv.key, False, mv.where, mv.what)
@@ -71,6 +72,19 @@ def run_property(prop: str, tier: str, replay: str | None = None,
         tb = traceback.format_exc()
         print(f"ANALYSIS-ERROR property={prop}: internal error\n{tb}")
         return 2
+
+
+_REGISTRY_PROPS = ("C02", "C03", "C04")
+
+
+def _shared_state_rules(ctx, model, prop):
+    """rules every property carries for the modules it is anchored in:
+    process-lifetime memo tables and rebindable registries (pv/sharedstate.py)"""
+    from . import sharedstate as ss
+    n = ss.check_memo_tables(ctx, model, ss.anchor_modules(prop))
+    ctx.extra["process_lifetime_tables_judged"] = n
+    if prop in _REGISTRY_PROPS:
+        ss.check_registry_reads(ctx, model)
 
 
 def _self_validate(ctx, prop):
